@@ -510,6 +510,7 @@ func (c *End) Reset() {
 	c.closed = true
 	w := c.waiting
 	c.waiting = false
+	c.freeWindow() // a writer blocked on this end's window gets the reset, as in TCP
 	c.mu.Unlock()
 	if w {
 		select {
